@@ -5,7 +5,7 @@
     (clock reading, operation): DISCOVER, REQUEST, DECLINE, RELEASE, static
     add / update / remove, time passing, restart) from the empty table. *)
 From Coq Require Import List ZArith NArith Permutation.
-From AGH Require Import Base.Run Model.Dhcp4 Proofs.Dhcp4.
+From AGH Require Import Base.Run Model.Dhcp4 Proofs.Dhcp4 Proofs.Dhcp4Names.
 Import ListNotations.
 Local Open Scope N_scope.
 
@@ -68,25 +68,24 @@ Theorem C10_store_exact : forall s, Permutation (disk (store s)) (map db_lease (
 Proof. exact store_exact. Qed.
 Print Assumptions C10_store_exact.
 
-(** Persistence, full statement: after a store and a restart the table holds
-    the same leases and HostByIP / IPByHost answer the same. *)
-Definition C10_persistence_statement : Prop := persistence_statement.
-
-(** Proved part: the same under the side condition that the names of the
-    dynamic leases are fixed points of the re-validation done on reload.
-    Missing for the full statement: that this side condition holds in every
-    reachable state (needs idempotence of [normalize] on its own output and
-    validity of [gen_hostname]); the harness checks the round trip on every
-    generated history. *)
-Theorem C10_persistence_partial : forall c h,
+(** Persistence: after a store and a restart the table holds the same leases
+    (each once, expiry at whole seconds) and HostByIP / IPByHost answer the
+    same, in every reachable state. *)
+Theorem C10_persistence : forall c h,
   let s := run c h empty_state in
-  NamesStable (leases s) ->
   let s' := restart c (store s) in
   Permutation (leases s') (map db_lease (leases s)) /\
   (forall h, ip_by_host s' h = ip_by_host s h) /\
   (forall ip, host_by_ip s' ip = host_by_ip s ip).
-Proof. exact persistence_partial. Qed.
-Print Assumptions C10_persistence_partial.
+Proof. exact persistence_full. Qed.
+Print Assumptions C10_persistence.
+
+(** On the way: the names of dynamic leases are fixed points of the
+    re-validation done on reload (validHostnameForClient is idempotent and
+    generated names are valid), in every reachable state. *)
+Theorem C10_names_stable : forall c h, NamesStable (leases (run c h empty_state)).
+Proof. exact names_stable_reachable. Qed.
+Print Assumptions C10_names_stable.
 
 (** Non-vacuity: a valid configuration and a history that reaches a table
     with a static lease, two dynamic leases with names, a free pool address
